@@ -403,7 +403,7 @@ func (r *run) check(after string, optional map[int]bool) {
 			if !r.m.holds(ti) {
 				r.m.S[ti.acct][ti.nonce] = ti
 				ti.gone = ""
-				_, ti.localFlag = view.AllLocals[ti.hash]
+				_, r.m.lflag[ti.id] = view.AllLocals[ti.hash]
 				if optional[ti.id] && r.optLocal && !r.cfg.NoLocals {
 					r.m.local[ti.acct] = true // an undecided local submission turned out accepted
 				}
@@ -412,7 +412,7 @@ func (r *run) check(after string, optional map[int]bool) {
 		for a := range r.m.S {
 			if r.m.local[a] {
 				for _, ti := range r.m.S[a] {
-					ti.localFlag = true
+					r.m.lflag[ti.id] = true
 				}
 			}
 		}
@@ -426,7 +426,7 @@ func (r *run) check(after string, optional map[int]bool) {
 			// follow the pool: the sender stays remote, only that transaction is indexed as local
 			r.m.local[a] = false
 			for _, ti := range r.m.S[a] {
-				_, ti.localFlag = view.AllLocals[ti.hash]
+				_, r.m.lflag[ti.id] = view.AllLocals[ti.hash]
 			}
 		}
 	}
